@@ -150,9 +150,15 @@ TABLE = {
                "libp2p-identity's from_multihash (C18 R18.1 + R18.2, evaluated under C19 as well)"},
     "AddressStore::insert|unwrap:expect#1": {"class": "guard", "need": [["len(self.addresses)", ">=", "self.max_capacity"]],
         "why": "min() of a map with len >= max_capacity > 0 entries (C10 R10.2)"},
+    # ---------------------------------------------------------------- rsa::PublicKey::encode_x509 (canonical re-encoding used by try_decode_x509)
+    "encode_x509::write_header|assert:Overflow:Overflow#1": {"class": "api", "need": [["128", "<=", "len"]],
+        "why": "bytes.len() - skip: skip = bytes.iter().take_while(..).count() counts a prefix of the 8-byte array, so skip <= bytes.len()"},
+    "encode_x509::write_header|index:index#1": {"class": "api", "need": [["128", "<=", "len"]], "why": "bytes[skip..] with skip <= bytes.len() as above"},
 }
 
 ALLOC_TABLE = {
+    "PublicKey::encode_x509|alloc:Vec::with_capacity#1": {"why": "self.0.len() + 8: the DER key bytes are already held in memory (they arrived in a size-limited handshake payload); reached from try_decode_x509 through the canonical re-encoding check"},
+    "PublicKey::encode_x509|alloc:Vec::with_capacity#2": {"why": "ALGORITHM.len() + bit_string.len() + 8 with bit_string built above from the in-memory key (len + <= 11 bytes)"},
     "LengthDelimited as Stream::poll_next|alloc:BytesMut::resize#1": {"type": "u16", "why": "frame length decoded as u16 (MAX_LEN_BYTES = 2): at most 16383/65535 bytes"},
     "LengthDelimited as Sink::start_send|alloc:BytesMut::reserve#1": {"need": [["MAX_FRAME_SIZE", ">=", "len"]], "why": "outgoing frame, bounded by MAX_FRAME_SIZE"},
     "Substream as Stream::poll_next|alloc:BytesMut::zeroed#1": {"need": [["this.codec", "is", "Identity"]], "why": "locally configured identity frame size"},
